@@ -24,4 +24,10 @@ META = {
   "note": "Trusts kit/smodel (RFC 9051 6.4.4 matcher, 150 lines) and per-key predicates written in the test; universe is finite; mixed-zone date operands and ModSeq are not generated.",
   "technique": "property-based testing (rapid): algebraic law vs reference matcher; metamorphic permutation invariance through the real server parser",
  },
+ "C01": {
+  "text": "Generated value trees round-tripped between imapwire.Encoder and the peer side's Decoder under every encoder mode, with exact-consumption and canonicalisation oracles, an independent tokenizer judging the emitted bytes against the mode, refusal checks for unrepresentable values, depth probes around the list cap, and a coverage-guided fuzz run of the same property in the thorough tier. Sampling, not proof.",
+  "design_ref": "DESIGN.md 3/C01",
+  "note": "Trusts kit/tok (independent framer), the canonical flag/attribute table in kit/gen and the reference UTF-7 length computation; a single-goroutine harness grants or cancels continuation requests before the encoder waits on them.",
+  "technique": "property-based testing (rapid) round-trip + independent tokenizer oracle; native go fuzzing via rapid.MakeFuzz (thorough)",
+ },
 }
